@@ -383,7 +383,7 @@ FACETS = [
           nontrivial=lambda c: len(c["X"]) > 0, classify=lambda c: (c["scheme"], "valid" if R.valid_bytepad(c["scheme"], c["X"], c["bl"])[0] else "malformed"),
           shards={"quick": 4, "thorough": 8},
           rule="PKCS#7/X9.23 remove on every 1- and 2-byte string with block length 1 and 2 (+ small alphabets on 3-4 bytes thorough)"),
-    Facet("unpad-malformed", check_unpad, strategy=unpad_strategy, budget={"quick": 4000, "thorough": 80000},
+    Facet("unpad-malformed", check_unpad, strategy=unpad_strategy, budget={"quick": 4000, "thorough": 80000}, fuzz={"thorough": 120000},
           nontrivial=lambda c: len(c["X"]) > 0,
           classify=lambda c: (c["scheme"], "valid" if R.valid_bytepad(c["scheme"], c["X"], c["bl"])[0] else "malformed"),
           rule="valid paddings and corruptions of them (last byte 0 / > block / one pad byte flipped / shifted), block length 1..255: "
